@@ -62,7 +62,7 @@ def _rows(draw: st.DrawFn, cols: list[dict[str, str]]) -> Any:
 @st.composite
 def _emit(draw: st.DrawFn, cols: list[dict[str, str]], may_finish: bool) -> dict[str, Any]:
     a: dict[str, Any] = {"op": "emit", "rows": draw(_rows(cols)), "meta": draw(programs._meta), "target": draw(_target)}
-    if may_finish and draw(st.integers(0, 5)) == 0:
+    if may_finish and draw(st.integers(0, 6)) == 3:
         a["finish"] = True
     return a
 
@@ -106,15 +106,29 @@ def _method(draw: st.DrawFn, idx: int) -> dict[str, Any]:
 
 @st.composite
 def _call(draw: st.DrawFn, methods: list[dict[str, Any]]) -> tuple[dict[str, Any], bool]:
-    c = copy.deepcopy(draw(programs._call(methods, True)))
-    m = methods[c["mid"]]
-    if m["kind"] == "exchange":
-        c["inputs"] = [draw(_rows(m["in_cols"])) for _ in range(draw(st.sampled_from([1, 0, 2, 3, 4])))]
+    """Same call shape as ``programs._call``; the all-minimal draw is a call that reads the whole stream."""
+    mid = draw(st.integers(0, len(methods) - 1))
+    m = methods[mid]
+    c: dict[str, Any] = {"mid": mid, "args": {p["name"]: draw(programs._values(p["type"])) for p in m["params"]}}
+    if m["kind"] == "producer":
+        if draw(st.integers(0, 7)) in (3, 5):
+            c["take"] = draw(st.sampled_from([2, 1, 0, 3, 4]))
+            c["end"] = draw(st.sampled_from(["close", "cancel"]))
+        else:
+            c["take"] = None
+            c["end"] = "exhaust"
+    elif m["kind"] == "exchange":
+        c["inputs"] = [draw(_rows(m["in_cols"])) for _ in range(draw(st.sampled_from([1, 2, 0, 3, 4])))]
         c["in_targets"] = [draw(_target) for _ in c["inputs"]]
+        c["end"] = draw(st.sampled_from(["close", "cancel"]))
+        if c["inputs"] and draw(st.integers(0, 15)) == 7:
+            # client error inside a history: this input is sent with its first column renamed, so the server must
+            # reject it (schema mismatch).  Only accounting and shm ≡ inline are judged for such a call.
+            c["bad_input"] = draw(st.integers(0, len(c["inputs"]) - 1))
     tg = {p["name"]: draw(_target) for p in m["params"] if p["type"] in ("str", "bytes")}
     if tg:
         c["arg_targets"] = tg
-    return c, m["kind"] == "unary" and bool(m["params"]) and draw(st.integers(0, 2)) == 0
+    return c, m["kind"] == "unary" and bool(m["params"]) and draw(st.integers(0, 2)) == 1
 
 
 @st.composite
